@@ -12,6 +12,7 @@ import (
 	"sort"
 	"strconv"
 	"strings"
+	"sync"
 	"time"
 
 	"decverif/internal/model"
@@ -33,6 +34,7 @@ var (
 	flagCtl     = flag.String("control", "", "run one control of the corpus and print the new violations (debugging)")
 	flagDry     = flag.Bool("dry", false, "do not write evidence or replay files (used when checking scratch variants)")
 	flagMan     = flag.Bool("manifest", false, "print MANIFEST.json for the claimed properties")
+	flagEvalAll = flag.Bool("evalall", false, "run every rule once (quick configurations) and print, per property, the violations its selectors keep; used to evaluate scratch variants quickly (writes nothing)")
 	flagStrict  = flag.Bool("strict", false, "treat `fewer instances than on the unchanged tree` (floors, selectors that match nothing) as an ANALYSIS-ERROR; used when validating the checker itself")
 )
 
@@ -59,6 +61,8 @@ func main() {
 		case *flagMan:
 			writeManifest()
 			code = 0
+		case *flagEvalAll:
+			code = evalAll()
 		case *flagCtl != "":
 			code = debugControl(*flagCtl)
 		case *flagReplay != "":
@@ -242,7 +246,7 @@ func runProp(id, tier string) int {
 		cfgs = p.QuickCfgs
 	}
 	for _, cfg := range cfgs {
-		l, counts := runRules(p.Rules, cfg, nil)
+		l, counts := runRules(p.AllRules(), cfg, nil)
 		all = append(all, l...)
 		perCfg[cfg] = counts
 	}
@@ -324,6 +328,7 @@ func runProp(id, tier string) int {
 			"rule":                "one obligation per rule instance (rule + construct found in /repo's source as loaded by this run); distinct = distinct rule+construct keys; info records (unconstrained cells, observations) are not counted",
 			"samples":             ob.Samples(all, 24),
 			"rules":               p.Rules,
+			"inherited_rules":     p.Uses,
 			"per_rule":            ob.Summarize(all),
 			"per_config_counts":   perCfg,
 			"configurations":      cfgNames,
@@ -426,4 +431,115 @@ func replay(path string) int {
 		fmt.Printf("VIOLATION property=%s replay=%s\n", r.Property, path)
 	}
 	return code
+}
+
+// evalAll: one pass over all rules per configuration, violations attributed to the properties whose
+// selectors keep them. Output format is that of eval_patch.sh.
+func evalAll() int {
+	findings, _ := ob.LoadFindings(filepath.Join(*flagVerif, "known_findings.json"))
+	var ids []string
+	for id := range props.All {
+		ids = append(ids, id)
+	}
+	sort.Strings(ids)
+	cfgRules := map[string]map[string]bool{}
+	cfgsOf := func(p *props.Prop) []string {
+		if len(p.QuickCfgs) > 0 {
+			return p.QuickCfgs
+		}
+		return []string{"amd64"}
+	}
+	for _, id := range ids {
+		p := props.All[id]
+		for _, c := range cfgsOf(p) {
+			if cfgRules[c] == nil {
+				cfgRules[c] = map[string]bool{}
+			}
+			for _, sel := range p.AllRules() {
+				n, _ := splitSel(sel)
+				cfgRules[c][n] = true
+			}
+		}
+	}
+	obs := map[string][]ob.Obligation{}
+	errs := map[string]string{}
+	var mu sync.Mutex
+	var wg sync.WaitGroup
+	sem := make(chan struct{}, 12)
+	for c, rs := range cfgRules {
+		for n := range rs {
+			wg.Add(1)
+			go func(c, n string) {
+				defer wg.Done()
+				sem <- struct{}{}
+				defer func() { <-sem }()
+				defer func() {
+					if r := recover(); r != nil {
+						mu.Lock()
+						defer mu.Unlock()
+						if ae, ok := r.(model.AnalysisError); ok {
+							errs[c+"/"+n] = ae.Msg
+							return
+						}
+						errs[c+"/"+n] = fmt.Sprint(r)
+					}
+				}()
+				l, _ := runRules([]string{n}, c, nil)
+				mu.Lock()
+				obs[c] = append(obs[c], l...)
+				mu.Unlock()
+			}(c, n)
+		}
+	}
+	wg.Wait()
+	for c := range obs {
+		ob.SortObligations(obs[c])
+	}
+	var fired, errd []string
+	for _, id := range ids {
+		p := props.All[id]
+		hit, bad := false, false
+		seen := map[string]bool{}
+		for _, c := range cfgsOf(p) {
+			for _, sel := range p.AllRules() {
+				n, f := splitSel(sel)
+				if e, ok := errs[c+"/"+n]; ok {
+					if !seen["E"+e] {
+						seen["E"+e] = true
+						fmt.Printf("    [%s] ANALYSIS-ERROR: %s\n", id, e)
+					}
+					bad = true
+				}
+				for _, o := range obs[c] {
+					if o.Verdict != ob.Violation || !ob.RuleMatches(o.Rule, n) || !selMatch(f, o.Construct) {
+						continue
+					}
+					if ob.MatchKnown(findings, id, o) != nil {
+						continue
+					}
+					k := o.Key() + c
+					if seen[k] {
+						continue
+					}
+					seen[k] = true
+					hit = true
+					fmt.Printf("    [%s] FAIL %s %s at %s [%s]: %s\n", id, o.Rule, o.Construct, o.Pos, c, o.Detail)
+				}
+			}
+		}
+		if hit {
+			fired = append(fired, id)
+		}
+		if bad {
+			errd = append(errd, id)
+		}
+	}
+	none := func(l []string) string {
+		if len(l) == 0 {
+			return "none"
+		}
+		return strings.Join(l, " ")
+	}
+	fmt.Printf("VIOLATION in: %s  ANALYSIS-ERROR in: %s\n", none(fired), none(errd))
+	return 0
 }
